@@ -93,6 +93,9 @@ func (sc *SpecCtx) constSV(c *types.Const) SV {
 		}
 		return SV{tFalse, t}
 	case constant.Int:
+		if s := sc.q().so.sortOf(t); isBV(s) {
+			return SV{bvLit(val.ExactString(), bvWidthOfSort(s)), t}
+		}
 		return SV{tIntS(val.ExactString()), t}
 	case constant.String:
 		return SV{sc.q().strLit(constant.StringVal(val)), t}
@@ -287,6 +290,9 @@ func (sc *SpecCtx) eval(e ast.Expr) SV {
 	case *ast.IndexExpr:
 		base := sc.eval(x.X)
 		idx := sc.eval(x.Index)
+		if isBV(idx.t.Sort) {
+			idx = SV{bvToInt(idx.t, isSignedInt(idx.typ)), idx.typ}
+		}
 		switch bt := base.typ.Underlying().(type) {
 		case *types.Slice:
 			m := q.heapGet(sc.curHeap(), sc.ex.memKey(bt.Elem()))
@@ -337,6 +343,9 @@ func (sc *SpecCtx) eval(e ast.Expr) SV {
 		case token.SUB:
 			if v.t.Sort == sF64 {
 				return SV{app(sF64, "fp.neg", v.t), v.typ}
+			}
+			if isBV(v.t.Sort) {
+				return SV{app(v.t.Sort, "bvneg", v.t), v.typ}
 			}
 			return SV{app(sInt, "-", v.t), v.typ}
 		case token.ADD:
@@ -400,6 +409,92 @@ func isUntyped(v SV) bool {
 	return ok && b.Info()&types.IsUntyped != 0
 }
 
+// litToBV turns an untyped integer literal term ("5", "(- 5)") into a bit-vector literal of width w.
+func litToBV(t Term, w int) (Term, bool) {
+	n := t.S
+	if strings.HasPrefix(n, "(- ") && strings.HasSuffix(n, ")") {
+		n = "-" + n[3:len(n)-1]
+	}
+	for i, c := range n {
+		if !(c >= '0' && c <= '9') && !(i == 0 && c == '-') {
+			return Term{}, false
+		}
+	}
+	return bvLit(n, w), true
+}
+
+// coerce brings two operands to a common sort (bit-vector mode: Int literals / Int-sorted lengths to BV).
+func (sc *SpecCtx) coerce(a, b SV) (SV, SV) {
+	if isBV(a.t.Sort) && b.t.Sort == sInt {
+		w := bvWidthOfSort(a.t.Sort)
+		if l, ok := litToBV(b.t, w); ok {
+			return a, SV{l, a.typ}
+		}
+		return a, SV{intToBV(b.t, w), a.typ}
+	}
+	if isBV(b.t.Sort) && a.t.Sort == sInt {
+		b2, a2 := sc.coerce(b, a)
+		return a2, b2
+	}
+	if isBV(a.t.Sort) && isBV(b.t.Sort) && a.t.Sort != b.t.Sort {
+		wa, wb := bvWidthOfSort(a.t.Sort), bvWidthOfSort(b.t.Sort)
+		if wa < wb {
+			a = SV{sc.ex.bvResize(a.t, wb, isSignedInt(a.typ)), b.typ}
+		} else {
+			b = SV{sc.ex.bvResize(b.t, wa, isSignedInt(b.typ)), a.typ}
+		}
+	}
+	return a, b
+}
+
+func (sc *SpecCtx) bvBinary(op token.Token, a, b SV) SV {
+	boolT := types.Typ[types.Bool]
+	srt := a.t.Sort
+	signed := isSignedInt(a.typ)
+	pick := func(s, u string) string {
+		if signed {
+			return s
+		}
+		return u
+	}
+	switch op {
+	case token.ADD:
+		return SV{app(srt, "bvadd", a.t, b.t), a.typ}
+	case token.SUB:
+		return SV{app(srt, "bvsub", a.t, b.t), a.typ}
+	case token.MUL:
+		return SV{app(srt, "bvmul", a.t, b.t), a.typ}
+	case token.QUO:
+		return SV{app(srt, pick("bvsdiv", "bvudiv"), a.t, b.t), a.typ}
+	case token.REM:
+		return SV{app(srt, pick("bvsrem", "bvurem"), a.t, b.t), a.typ}
+	case token.AND:
+		return SV{app(srt, "bvand", a.t, b.t), a.typ}
+	case token.OR:
+		return SV{app(srt, "bvor", a.t, b.t), a.typ}
+	case token.XOR:
+		return SV{app(srt, "bvxor", a.t, b.t), a.typ}
+	case token.SHL:
+		return SV{app(srt, "bvshl", a.t, b.t), a.typ}
+	case token.SHR:
+		return SV{app(srt, pick("bvashr", "bvlshr"), a.t, b.t), a.typ}
+	case token.EQL:
+		return SV{eq(a.t, b.t), boolT}
+	case token.NEQ:
+		return SV{not(eq(a.t, b.t)), boolT}
+	case token.LSS:
+		return SV{app(sBool, pick("bvslt", "bvult"), a.t, b.t), boolT}
+	case token.LEQ:
+		return SV{app(sBool, pick("bvsle", "bvule"), a.t, b.t), boolT}
+	case token.GTR:
+		return SV{app(sBool, pick("bvsgt", "bvugt"), a.t, b.t), boolT}
+	case token.GEQ:
+		return SV{app(sBool, pick("bvsge", "bvuge"), a.t, b.t), boolT}
+	}
+	sc.fail("unsupported bit-vector operator %s", op)
+	return SV{}
+}
+
 func (sc *SpecCtx) binary(x *ast.BinaryExpr) SV {
 	q := sc.q()
 	switch x.Op {
@@ -409,6 +504,12 @@ func (sc *SpecCtx) binary(x *ast.BinaryExpr) SV {
 		return SV{or(sc.eval(x.X).t, sc.eval(x.Y).t), types.Typ[types.Bool]}
 	}
 	a, b := sc.eval(x.X), sc.eval(x.Y)
+	if isBV(a.t.Sort) || isBV(b.t.Sort) {
+		if (isBV(a.t.Sort) || a.t.Sort == sInt) && (isBV(b.t.Sort) || b.t.Sort == sInt) {
+			a, b = sc.coerce(a, b)
+			return sc.bvBinary(x.Op, a, b)
+		}
+	}
 	rt := a.typ
 	if isUntyped(a) {
 		rt = b.typ
@@ -519,7 +620,14 @@ func (sc *SpecCtx) quant(kind string, x *ast.CallExpr) SV {
 	if len(x.Args) != 3 {
 		sc.fail("%s(lo, hi, func(k int) bool {...})", kind)
 	}
-	lo, hi := sc.eval(x.Args[0]).t, sc.eval(x.Args[1]).t
+	loV, hiV := sc.eval(x.Args[0]), sc.eval(x.Args[1])
+	if isBV(loV.t.Sort) {
+		loV = SV{bvToInt(loV.t, isSignedInt(loV.typ)), nil}
+	}
+	if isBV(hiV.t.Sort) {
+		hiV = SV{bvToInt(hiV.t, isSignedInt(hiV.typ)), nil}
+	}
+	lo, hi := loV.t, hiV.t
 	fl, ok := x.Args[2].(*ast.FuncLit)
 	if !ok || len(fl.Type.Params.List) != 1 || len(fl.Type.Params.List[0].Names) != 1 || len(fl.Body.List) != 1 {
 		sc.fail("%s: third argument must be func(k int) bool { return ... }", kind)
@@ -532,7 +640,12 @@ func (sc *SpecCtx) quant(kind string, x *ast.CallExpr) SV {
 	sc.q().nfresh++
 	bv := Term{fmt.Sprintf("%s!q%d", name, sc.q().nfresh), sInt}
 	saved, had := sc.vars[name]
-	sc.vars[name] = SV{bv, types.Typ[types.Int]}
+	// the bound variable is a mathematical integer; in bit-vector mode it is given an untyped (literal-like)
+	// type so that it can index and be compared with lengths
+	sc.vars[name] = SV{bv, nil}
+	if !sc.q().so.bv {
+		sc.vars[name] = SV{bv, types.Typ[types.Int]}
+	}
 	sc.q().pureDepth++
 	body := sc.eval(rs.Results[0]).t
 	sc.q().pureDepth--
@@ -636,6 +749,7 @@ func (sc *SpecCtx) call(x *ast.CallExpr) SV {
 				return SV{eq(sc.eval(x.Args[0]).t, sc.eval(x.Args[1]).t), boolT}
 			case "ite":
 				c, a, b := sc.eval(x.Args[0]), sc.eval(x.Args[1]), sc.eval(x.Args[2])
+				a, b = sc.coerce(a, b)
 				rt := a.typ
 				if isUntyped(a) {
 					rt = b.typ
@@ -643,25 +757,33 @@ func (sc *SpecCtx) call(x *ast.CallExpr) SV {
 				return SV{ite(c.t, a.t, b.t), rt}
 			case "len":
 				v := sc.eval(x.Args[0])
+				intT := types.Typ[types.Int]
 				switch v.t.Sort {
 				case sStr:
-					return SV{strLen(v.t), types.Typ[types.Int]}
+					return SV{sc.ex.asVal(strLen(v.t), intT), intT}
 				case sSlice:
-					return SV{slLen(v.t), types.Typ[types.Int]}
+					return SV{sc.ex.asVal(slLen(v.t), intT), intT}
 				}
 				if at, ok := v.typ.Underlying().(*types.Array); ok {
-					return SV{tInt(at.Len()), types.Typ[types.Int]}
+					return SV{sc.ex.intLit(at.Len(), intT), intT}
 				}
 				sc.fail("len of %s", v.t.Sort)
 			case "cap":
 				v := sc.eval(x.Args[0])
-				return SV{slCap(v.t), types.Typ[types.Int]}
+				return SV{sc.ex.asVal(slCap(v.t), types.Typ[types.Int]), types.Typ[types.Int]}
 			case "min", "max":
 				a, b := sc.eval(x.Args[0]), sc.eval(x.Args[1])
-				if id.Name == "min" {
-					return SV{ite(le(a.t, b.t), a.t, b.t), a.typ}
+				a, b = sc.coerce(a, b)
+				var c Term
+				if isBV(a.t.Sort) {
+					c = sc.bvBinary(token.LEQ, a, b).t
+				} else {
+					c = le(a.t, b.t)
 				}
-				return SV{ite(le(a.t, b.t), b.t, a.t), a.typ}
+				if id.Name == "min" {
+					return SV{ite(c, a.t, b.t), a.typ}
+				}
+				return SV{ite(c, b.t, a.t), a.typ}
 			case "string":
 				v := sc.eval(x.Args[0])
 				switch v.t.Sort {
@@ -673,9 +795,10 @@ func (sc *SpecCtx) call(x *ast.CallExpr) SV {
 					return SV{mkStr(data, slOff(v.t), slLen(v.t)), types.Typ[types.String]}
 				}
 				sc.fail("string() of %s", v.t.Sort)
-			case "int", "int64", "byte", "uint8", "int32", "rune", "uint", "uint64":
+			case "int", "int64", "byte", "uint8", "int32", "rune", "uint", "uint64", "int8", "int16", "uint16", "uint32", "float64":
 				v := sc.eval(x.Args[0])
-				return SV{v.t, types.Universe.Lookup(id.Name).Type()}
+				to := types.Universe.Lookup(id.Name).Type()
+				return SV{sc.convertTerm(v, to), to}
 			case "dyntag":
 				v := sc.eval(x.Args[0])
 				return SV{ifTag(v.t), types.Typ[types.Int]}
@@ -876,3 +999,31 @@ func termsOf(vs []SV) []Term {
 }
 
 var _ = strings.Contains
+
+// convertTerm: Go conversion T(x) between numeric types in specs.
+func (sc *SpecCtx) convertTerm(v SV, to types.Type) Term {
+	q := sc.q()
+	ts := q.so.sortOf(to)
+	fs := v.t.Sort
+	switch {
+	case fs == ts && !isBV(ts):
+		return v.t
+	case isBV(fs) && isBV(ts):
+		return sc.ex.bvResize(v.t, bvWidthOfSort(ts), isSignedInt(v.typ))
+	case fs == sInt && isBV(ts):
+		if l, ok := litToBV(v.t, bvWidthOfSort(ts)); ok {
+			return l
+		}
+		return intToBV(v.t, bvWidthOfSort(ts))
+	case isBV(fs) && ts == sF64:
+		if isSignedInt(v.typ) {
+			return app(sF64, "(_ to_fp 11 53) RNE", v.t)
+		}
+		return app(sF64, "(_ to_fp_unsigned 11 53) RNE", v.t)
+	case fs == sInt && ts == sF64:
+		return app(sF64, "(_ to_fp 11 53) RNE", app("Real", "to_real", v.t))
+	case fs == sF64 && isBV(ts):
+		return app(ts, fmt.Sprintf("(_ fp.to_sbv %d) RTZ", bvWidthOfSort(ts)), v.t)
+	}
+	return v.t
+}
